@@ -27,15 +27,27 @@ USE_HUFFMAN_MODEL = False          # True: hd := H2V.Model.Huffman.huff_decode_o
 
 CORPUS = os.path.join(common.VERIF, "corpus", "hpackdec")
 
+# Parsing is what costs in coqc (~70 us per token), so octet strings are written packed, 7 octets
+# per primitive integer literal, and unpacked inside vm_compute: (B len [w1; w2; ...]).
+PACK = ("From Coq Require Import Uint63.\n"
+        "Definition i2n (x : int) : N := Z.to_N (Uint63.to_Z x).\n"
+        "Fixpoint unpack (k : nat) (v : N) (acc : list N) : list N :=\n"
+        "  match k with O => acc | S k' => unpack k' (v / 256) (v mod 256 :: acc) end.\n"
+        "Fixpoint unpacks (len : N) (ws : list int) : list N :=\n"
+        "  match ws with [] => [] | w :: ws' => let k := N.min len 7 in\n"
+        "    unpack (N.to_nat k) (i2n w) [] ++ unpacks (len - k) ws' end.\n"
+        "Definition B (len : int) (ws : list int) : list N := unpacks (i2n len) ws.\n"
+        "Definition Q (ws : list int) : list N := map i2n ws.\n"
+        "Local Open Scope uint63_scope.\n")
 PREAMBLE = ("From H2V Require Import Base.Tac Base.Bytes Model.HpackInt Model.HpackDec.\n"
-            "Local Open Scope N_scope.\n")
+            "Local Open Scope N_scope.\n" + PACK)
 PREAMBLE_HUFFMODEL = ("From H2V Require Import Base.Tac Base.Bytes Model.HpackInt Model.HpackDec Model.Huffman.\n"
-                      "Local Open Scope N_scope.\n"
+                      "Local Open Scope N_scope.\n" + PACK +
                       "Definition check_with_model (c : list (list N * option (list N)) * N * list block_rec) : bool :=\n"
                       "  let '(_, size, blocks) := c in run_history huff_decode_opt (decoder_new size) blocks.\n")
 ORACLE_PREAMBLE = ("From H2V Require Import Base.Tac Base.Bytes Ref.Rfc7541Block.\n"
-                   "Local Open Scope N_scope.\n"
-                   "Definition oracle_ok c := oracle_hpack c =? 0.\n")
+                   "Local Open Scope N_scope.\n" + PACK +
+                   "Definition oracle_ok c := (oracle_hpack c =? 0)%N.\n")
 
 ORACLE_CLASSES = {
     1: "accepts-block-rfc-rejects",
@@ -50,7 +62,21 @@ ORACLE_CLASSES = {
 # rendering
 
 def nl(xs):
-    return common.coq_N_list(xs) if xs else "(@nil N)"
+    """an octet string"""
+    if not xs:
+        return "(@nil N)"
+    ws = []
+    for i in range(0, len(xs), 7):
+        v = 0
+        for b in xs[i:i + 7]:
+            v = v * 256 + int(b)
+        ws.append(str(v))
+    return "(B %d [%s])" % (len(xs), "; ".join(ws))
+
+
+def ql(xs):
+    """a list of numbers (queued sizes)"""
+    return "(Q [%s])" % "; ".join(str(int(x)) for x in xs) if xs else "(@nil N)"
 
 
 def fields(fs):
@@ -76,10 +102,13 @@ def huff_table(c):
 
 
 def block_entries(c, i, b):
-    """table entries are compared after every block, except in the long fixture stories
-    (every 16th block and the last one) to keep the Coq input small"""
-    if "story" in c and not (i % 16 == 15 or i == len(c["blocks"]) - 1):
+    """table entries are compared after the last block of a history and whenever the table is
+    small; in the long fixture stories every 16th block and the last one"""
+    last = i == len(c["blocks"]) - 1
+    if "story" in c and not (i % 16 == 15 or last):
         return "None"
+    if not last and len(b["table"]["entries"]) > 8:
+        return "None"      # size and max_size are still compared
     return "(Some %s)" % fields(b["table"]["entries"])
 
 
@@ -87,10 +116,10 @@ def case_term(c):
     bl = []
     for i, b in enumerate(c["blocks"]):
         t = b["table"]
-        bl.append("(%s, [%s], (%s, %s, %s, (%s, %d, %d)))" % (
-            nl(b["queued"]), "; ".join(nl(f) for f in b["frags"]), fields(b["fields"]), verdict(b["verdict"]),
+        bl.append("(%s, [%s], (%s, %s, %s, (%s, %d%%N, %d%%N)))" % (
+            ql(b["queued"]), "; ".join(nl(f) for f in b["frags"]), fields(b["fields"]), verdict(b["verdict"]),
             nl(b["left"]), block_entries(c, i, b), t["size"], t["max"]))
-    return "(%s, %d, [%s])" % (huff_table(c), c["size"], "; ".join(bl))
+    return "(%s, %d%%N, [%s])" % (huff_table(c), c["size"], "; ".join(bl))
 
 
 def oracle_term(c):
@@ -103,10 +132,10 @@ def oracle_term(c):
         if len(b["queued"]) >= 2 and b["queued"][-1] != max(b["queued"]):
             break
         allb = [x for f in b["frags"] for x in f]
-        bl.append("(%s, %s, %s, %s, %s, %d)" % (
-            nl(b["queued"]), nl(allb), common.coq_bool(b["verdict"] == "Ok"), fields(b["fields"]),
+        bl.append("(%s, %s, %s, %s, %s, %d%%N)" % (
+            ql(b["queued"]), nl(allb), common.coq_bool(b["verdict"] == "Ok"), fields(b["fields"]),
             block_entries(c, i, b), b["table"]["size"]))
-    return "(%s, %d, [%s])" % (huff_table(c), c["size"], "; ".join(bl))
+    return "(%s, %d%%N, [%s])" % (huff_table(c), c["size"], "; ".join(bl))
 
 
 def inputs_only(c):
@@ -165,9 +194,9 @@ def model_failing(tag, cases, shard=None):
         return [], None
     terms = [case_term(c) for c in cases]
     if shard is None:
-        # aim at ~1.5 MB of Coq input per shard
+        # aim at ~120 kB of Coq input per shard (parsing dominates; shards run in parallel)
         total = sum(len(t) for t in terms)
-        shard = max(1, min(250, int(len(terms) * 1.5e6 / max(total, 1))))
+        shard = max(1, min(250, int(len(terms) * 1.2e5 / max(total, 1))))
     if USE_HUFFMAN_MODEL:
         return common.coq_eval_failing(tag, PREAMBLE_HUFFMODEL, "check_with_model", terms, shard=shard)
     return common.coq_eval_failing(tag, PREAMBLE, "check_hpack_dec", terms, shard=shard)
@@ -179,7 +208,7 @@ def oracle_failing(tag, cases, shard=None):
     terms = [oracle_term(c) for c in cases]
     if shard is None:
         total = sum(len(t) for t in terms)
-        shard = max(1, min(250, int(len(terms) * 1.5e6 / max(total, 1))))
+        shard = max(1, min(250, int(len(terms) * 1.2e5 / max(total, 1))))
     return common.coq_eval_failing(tag, ORACLE_PREAMBLE, "oracle_ok", terms, shard=shard)
 
 
@@ -189,7 +218,7 @@ def oracle_code(c):
     if rc != 0 or "@@RESULT" not in out:
         return -1
     import re
-    m = re.search(r"=\s*(\d+)\s*:\s*N", out.split("@@RESULT", 1)[1].replace("\n", " "))
+    m = re.search(r"=\s*(\d+)(?:%N)?\s*:\s*N", out.split("@@RESULT", 1)[1].replace("\n", " "))
     return int(m.group(1)) if m else -1
 
 
